@@ -287,7 +287,8 @@ def run_batch(profile, base_seed, n_runs, jobs, budget_s, chunk=20, start=0):
                     raise HarnessError("batch exceeded hard deadline; in-flight runs: %s" % (_inflight(),))
             for f in futs:
                 results.append(f.result())
-        finally:
+            ex.shutdown(wait=True)
+        except BaseException:
             procs = list(getattr(ex, "_processes", {}).values())
             ex.shutdown(wait=False, cancel_futures=True)
             for p_ in procs:
@@ -296,6 +297,7 @@ def run_batch(profile, base_seed, n_runs, jobs, budget_s, chunk=20, start=0):
                         p_.kill()
                 except Exception:  # noqa
                     pass
+            raise
     for a in results:
         total["runs"] += a["runs"]
         total["ops"] += a["ops"]
